@@ -21,6 +21,8 @@ def span_catalogue(n=4):
     return {
         'range': range(2000, 2000 + n),
         'range-neg': range(-2, -2 + n),
+        'range-step': range(2000, 2000 + 5 * n, 5),
+        'range-step-down': range(10 * n, 0, -10),
         'list-str': [f'p{i}' for i in range(n)],
         'list-mixed': [0, 'a', (1, 2), 2.5, None, -1, '', True][:n] if n <= 4 else list(range(n)),
         'np-int': np.arange(-1, -1 + n),
@@ -351,10 +353,15 @@ class LabelAccess(BoundedCheck):
         near = []
         for lab in labels[:2]:
             if isinstance(lab, (int, np.integer)) and not isinstance(lab, bool):
-                near += [float(lab) + 0.5, str(int(lab))]          # a number between two labels; the label's text
+                near += [float(lab) + 0.5, str(int(lab)), int(lab) + 1, int(lab) - 1]          # a number between two labels; the label's text; the neighbouring integers
             elif isinstance(lab, str) and lab:
                 near += [lab + 'x', lab[:-1] + ' ']                  # a longer string with the label as prefix; same length, other text
-        near = [x for x in near if all(not (type(x) is type(lab) and x == lab) and not (isinstance(x, float) and isinstance(lab, (int, float)) and not isinstance(lab, bool) and x == lab) for lab in labels)]
+        def same_label(x, lab):
+            num = lambda v: isinstance(v, (int, float, np.integer, np.floating)) and not isinstance(v, (bool, np.bool_))   # noqa: E731
+            if num(x) and num(lab):
+                return x == lab
+            return type(x) is type(lab) and x == lab
+        near = [x for x in near if not any(same_label(x, lab) for lab in labels)]
         for absent in ['__absent__', 99999, -99999, 3.75] + near + tuple_absent:
             res.cover('absent')
             before = c.X.copy()
@@ -570,7 +577,13 @@ class CopyIndependence(BoundedCheck):
         elif route == 'deepcopy':
             other = copy.deepcopy(obj)
         elif kind in ('model', 'mixin'):
-            other = obj.__class__(list(range(5)), G=1.0, a=0.5)
+            if case['pre'] == 2:
+                # siblings constructed from one and the same caller-owned array (and the original given new values from it): each owns its series
+                shared, shared_a = np.full(5, 1.0), np.full(5, 0.5)
+                obj = obj.__class__(list(range(5)), G=shared, a=shared_a)
+                other = obj.__class__(list(range(5)), G=shared, a=shared_a)
+            else:
+                other = obj.__class__(list(range(5)), G=1.0, a=0.5)
             if case['pre'] >= 1 and kind == 'mixin':
                 other.aliases['inc'] = 'Y'
         elif kind == 'linker':
@@ -641,7 +654,7 @@ class Reindex(BoundedCheck):
         pool = {'range': lambda xs: [2000 + i for i in xs], 'list-str': lambda xs: [f'p{i}' for i in xs]}
         news = [[0, 1, 2, 3], [1, 2, 3, 4], [5, 6], [3, 1, 0, 2], [1, 2], [-1, 0, 1, 2, 3, 4], [3, 1, 1, 7, 3], []]
         fills = [dict(), dict(fill_value=9), dict(A=7.5), dict(fill_value=0, I=4), dict(fill_value=2, B=False, S='zz'), dict(iterations=0, status=''),
-                 dict(nosuch=1), dict(fill_value=0.0, A=0.0)]
+                 dict(nosuch=1), dict(fill_value=0.0, A=0.0), dict(size=1), dict(copy=0, A=1.0), dict(note=2)]
         for sp in pool:
             for new in news:
                 for fl in fills:
@@ -783,6 +796,9 @@ class Reindex(BoundedCheck):
         for k in before:
             if not same(c[k], before[k]):
                 out.append(Violation('the original object is unchanged', 'c12.original-changed', dict(case, var=k), before[k].tolist(), c[k].tolist(), 'original'))
+        if r.strict != c.strict:
+            out.append(Violation('settings carry over (the strict setting of the result is that of the original, whatever strict= was passed for the keyword check)', 'c12.strict-setting', case,
+                                 c.strict, r.strict))
         if getattr(r, 'note', None) != 'n' or (case['target'] == 'model' and r.lags != 2):
             out.append(Violation('lag/lead settings and attributes carry over', 'c12.attributes', case, ['n', 2], [getattr(r, 'note', None), getattr(r, 'lags', None)]))
         # shares nothing
